@@ -228,7 +228,18 @@ int mon_allocfail(const mon_args_t *a) {
       char site[160], key[400];
       site_of(out, site, sizeof site);
       int san = strstr(out, "ERROR: AddressSanitizer") || strstr(out, "runtime error:");
-      int diag = strstr(out, "returned NULL") || strstr(out, "malloc failed") || strstr(out, "realloc failed") || strstr(out, "alloc failed");
+      /* a diagnostic = any line on stderr that is not one of the harness' own markers (the wording is the library's business) */
+      int diag = 0;
+      {
+        char tmp[8192];
+        snprintf(tmp, sizeof tmp, "%s", out);
+        char *save = NULL;
+        for (char *ln = strtok_r(tmp, "\n", &save); ln; ln = strtok_r(NULL, "\n", &save)) {
+          while (*ln == ' ') ln++;
+          if (!*ln || !strncmp(ln, "AW-", 3) || !strncmp(ln, "HX-", 3) || !strncmp(ln, "==", 2)) continue;
+          diag = 1;
+        }
+      }
       const char *kind = NULL;
       if (strstr(out, "HX-RETURNED")) {
         if (strstr(out, "failed=0"))
